@@ -6,8 +6,8 @@ package main
 
 import (
 	"fmt"
-	"os"
 	"math/big"
+	"os"
 
 	"verifharness/internal/h"
 
